@@ -276,6 +276,12 @@ structure SubmitPost (A : Alg D) (m : M D) (c : Cid) (sp : Cid → SpecCtx) (dat
   ret : ∀ c', res.2 = some c' → Returned (res.1.ctxs c')
   err : ∀ j, (res.1.ctxs j).error = if j = c then 0 else (m.ctxs j).error
   proc : ∀ j, (res.1.ctxs j).processing = true → j = c ∨ (m.ctxs j).processing = true
+  /-- no job is lost: the submitted context and every context in flight stay PROCESSING unless
+      handed back by this call -/
+  keep : ∀ j, (j = c ∨ (m.ctxs j).processing = true) → (res.1.ctxs j).processing = true ∨ res.2 = some j
+  /-- only the submitted context or one that was in flight is handed back -/
+  ret_was : ∀ c', res.2 = some c' → c' = c ∨ (m.ctxs c').processing = true
+  slots_len : res.1.slots.length = m.slots.length
 
 /-- an accepted submit appends the segment to the context's stream (or starts a new stream) and
     changes no other context's stream -/
@@ -304,7 +310,8 @@ theorem ctxSubmit_accepted (A : Alg D) (hB : 0 < A.B) (m : M D) (c : Cid) (data 
     · simpa using hB
     · exact hshc.1
   have hpost := submitTail_post A hB m c _ res hres hinv hidle h2l rfl rfl h2part
-  refine ⟨⟨hpost.ok, hpost.shape, ?_⟩, fun j => ?_, hpost.ret, fun j => ?_, fun j hj => ?_⟩
+  refine ⟨⟨hpost.ok, hpost.shape, ?_⟩, fun j => ?_, hpost.ret, fun j => ?_, fun j hj => ?_, fun j hj => ?_,
+    fun c' hc' => ?_, hpost.slots_len⟩
   · apply hpost.inflight
     intro j hj
     by_cases hjc : j = c
@@ -377,6 +384,13 @@ theorem ctxSubmit_accepted (A : Alg D) (hB : 0 < A.B) (m : M D) (c : Cid) (data 
   · by_cases hjc : j = c
     · left; exact hjc
     · right; simpa [setCtx, hjc] using hpost.proc_mono j hj
+  · apply hpost.proc_keep j
+    by_cases hjc : j = c
+    · subst hjc; simp [setCtx, accepted]
+    · simpa [setCtx, hjc] using hj.resolve_left hjc
+  · by_cases hjc : c' = c
+    · left; exact hjc
+    · right; simpa [setCtx, hjc] using hpost.ret_proc c' hc'
 
 structure FlushPost (A : Alg D) (m : M D) (sp : Cid → SpecCtx) (res : M D × Option Cid) : Prop where
   inv : Inv A res.1
@@ -386,6 +400,8 @@ structure FlushPost (A : Alg D) (m : M D) (sp : Cid → SpecCtx) (res : M D × O
   proc : ∀ j, (res.1.ctxs j).processing = true → (m.ctxs j).processing = true
   /-- flush hands back nothing only when no context is in flight any more -/
   drained : res.2 = none → ∀ j, (res.1.ctxs j).processing = false
+  keep : ∀ j, (m.ctxs j).processing = true → (res.1.ctxs j).processing = true ∨ res.2 = some j
+  slots_len : res.1.slots.length = m.slots.length
 
 theorem mgrFlush_none_iff (P : Params) (f : D → Bytes → D) (m : M D) :
     (mgrFlush P f m).2 = none ↔ occupied m = [] := by
@@ -420,7 +436,7 @@ theorem ctxFlush_post (P : Params) (A : Alg D) (hB : 0 < A.B) (sp : Cid → Spec
       have hocc := (mgrFlush_none_iff P A.f m).mp hfl
       have hm1 : (mgrFlush P A.f m).1 = m := by unfold mgrFlush; simp [hocc]
       rw [hm1]
-      refine ⟨hinv, hrel, fun c' h => (by cases h), fun _ => rfl, fun _ h => h, fun _ j => ?_⟩
+      refine ⟨hinv, hrel, fun c' h => (by cases h), fun _ => rfl, fun _ h => h, fun _ j => ?_, fun _ h => Or.inl h, rfl⟩
       cases hp : (m.ctxs j).processing with
       | false => rfl
       | true =>
@@ -460,7 +476,12 @@ theorem ctxFlush_post (P : Params) (A : Alg D) (hB : 0 < A.B) (sp : Cid → Spec
         cases hr2 : r2.2 with
         | some c' =>
           rw [hr2] at hres; simp only [Option.some.injEq] at hres; subst hres
-          refine ⟨hinv2, hrel2, fun c'' h => ?_, herr2, hproc2, fun h => by cases h⟩
+          have hkeep : ∀ j, (m.ctxs j).processing = true → (r2.1.ctxs j).processing = true ∨ some c' = some j := by
+            intro j hj
+            have := hpost.proc_keep j (by rw [(hsu j).2.2.2.2.2.1]; exact hj)
+            rw [hr2] at this; exact this
+          refine ⟨hinv2, hrel2, fun c'' h => ?_, herr2, hproc2, fun h => (by cases h), hkeep,
+            hpost.slots_len.trans (mgrFlush_slots_len P A.f m)⟩
           simp only [Option.some.injEq] at h; subst h
           have hret := hpost.ret c' hr2
           refine ⟨hret, ?_⟩
@@ -470,8 +491,12 @@ theorem ctxFlush_post (P : Params) (A : Alg D) (hB : 0 < A.B) (sp : Cid → Spec
           rw [hr2] at hres; simp only [] at hres
           have i := ih r2.1 res hres hinv2 hrel2
           refine ⟨i.inv, i.rel, fun c' h => ?_, fun j => (i.err j).trans (herr2 j),
-            fun j h => hproc2 j (i.proc j h), i.drained⟩
-          obtain ⟨h1, h2⟩ := i.ret c' h
-          exact ⟨h1, hproc2 c' h2⟩
+            fun j h => hproc2 j (i.proc j h), i.drained, fun j hj => ?_,
+            i.slots_len.trans (hpost.slots_len.trans (mgrFlush_slots_len P A.f m))⟩
+          · obtain ⟨h1, h2⟩ := i.ret c' h
+            exact ⟨h1, hproc2 c' h2⟩
+          · have := hpost.proc_keep j (by rw [(hsu j).2.2.2.2.2.1]; exact hj)
+            rw [hr2] at this
+            exact i.keep j (this.resolve_right (by simp))
 
 end IsalVerif.HashMB
